@@ -32,7 +32,7 @@ theorem Inv.free {s : State} (hI : Inv s) {a : Actor} {n : Nat} {p : Pc} (hp : (
   have hpost := hI.postOk a n hp
   have hI' := hI
   obtain ⟨kindC, kindF, lockOk, frWait, freshOk, freshUniq, freshVer, freshVerT, freshNode, wFreeTaken, preOk, postOk, ownOk, rsmTaken,
-    freeTaken, pubNode, waiting, parked, listOk, scanOk, prevOk, placed, oScanOk, oNoneOk, aUnlockOk, aNextOk, aResumeOk, aFreeOk,
+    freeTaken, pubNode, waiting, parked, listOk, scanOk, prevOk, placed, freshHolder, scanL0, unlockL0, oScanOk, oNoneOk, aUnlockOk, aNextOk, aResumeOk, aFreeOk,
     noRead, cTakeOk, cRemoveOk, allocUsed, noBad⟩ := hI
   obtain ⟨hs1, hs2, hs3, hs4, hs5, hs6, hs7, hs8, hs9⟩ := hshape
   constructor
@@ -67,6 +67,9 @@ theorem Inv.free {s : State} (hI : Inv s) {a : Actor} {n : Nat} {p : Pc} (hp : (
     · inv_simp; grind [upd, updA, Pc.pend, Pc.locks]
     · inv_simp; grind [upd, updA, Pc.post]
   case placed => inv_auto
+  case freshHolder => inv_auto
+  case scanL0 => inv_auto
+  case unlockL0 => inv_auto
   case oScanOk => inv_auto
   case oNoneOk => inv_auto
   case aUnlockOk => inv_auto
